@@ -39,7 +39,16 @@ def run(ctx):
     ctx.write_scenarios("snifftcp", scns)
     ctx.go_test("extras", "./sniff/", "TestVerif_C17$",
                 ["harness/extras/sniff/c17_test.go", "harness/extras/sniff/c17_vectors_test.go"])
-    ctx.validate("Prop_C17", sig=sig, distinct=distinct)
+    ctx.validate("Prop_C17", sig=sig, distinct=distinct, traces=[ctx.out + "/trace-C17.ndjson"] if os.path.exists(ctx.out + "/trace-C17.ndjson") else None)
+    # end to end: a real server with the real Sniffer as its RequestHook (Prop_C17e).  The shared full-stack world of the
+    # core drivers is injected into this package under the package's own name.
+    if not ctx.replay:
+        src = open(os.path.join(os.path.dirname(os.path.dirname(os.path.dirname(os.path.abspath(__file__)))), "harness/core/internal/integration_tests/e2e_common_test.go")).read()
+        src = src.replace("package integration_tests", "package sniff", 1).replace("github.com/apernet/hysteria/core/v2/internal/verifkit", "github.com/apernet/hysteria/extras/v2/internal/verifkit")
+        common = os.path.join(ctx.out, "e2e_common_sniff_test.go")
+        open(common, "w").write(src)
+        ctx.go_test("extras", "./sniff/", "TestVerif_C17e$", [common, "harness/extras/sniff/c17_e2e_test.go"])
+    ctx.validate("Prop_C17e", sig=sig, traces=[ctx.out + "/trace-C17e.ndjson"])
     ctx.assumptions += [
         "the request address handed to the hook is a valid host:port (Sniffer.Check / the server guarantee it)",
         "hosts 'actually present' are the ones the payload grammar put into the Host header / absolute request target / SNI; decoy hosts elsewhere in the bytes are not",
